@@ -1,4 +1,5 @@
 //! Decoders: bytes (choice source) -> AST. One function family per generator family.
+pub mod fd;
 pub mod search;
 pub mod terms;
 pub mod tree;
